@@ -422,6 +422,15 @@ pub fn replay_one(idx: usize, v: &Value, rep: &Report, cnt: &mut Counts, o: &Opt
         }
         if g.iter && (!ns.is_empty() || k == 0) {
             let total = wfwd.len();
+            // constructing the one-shot iterators from borrowed slices (and taking the first item) allocates nothing
+            let (r0, a) = counted(|| memmem::find_iter(&h, &n).next());
+            if r0.is_ok() {
+                c.alloc("memmem::find_iter (construction + first next)", a);
+            }
+            let (r0, a) = counted(|| memmem::rfind_iter(&h, &n).next());
+            if r0.is_ok() {
+                c.alloc("memmem::rfind_iter (construction + first next)", a);
+            }
             let r = guard(|| drive_iter(memmem::find_iter(&h, &n), total, h.len() + 2));
             iter_outcome(&c, cnt, "memmem::find_iter", r, &wfwd);
             let r = guard(|| {
